@@ -207,6 +207,8 @@ class Gen(object):
     if not rows or not dcols:
       return None
     ids = r.sample(rows, r.randint(1, min(3, len(rows))))
+    if len(ids) >= 2 and r.random() < 0.15:
+      ids.append(ids[0])         # a row named twice in one bulk update is legal: the last value wins
     cols = r.sample(dcols, r.randint(1, min(2, len(dcols))))
     vals = {c: [self.value(view.tables[tid]["cols"][c][1], view) for _ in ids] for c in cols}
     if len(ids) == 1 and r.random() < 0.5:
@@ -234,7 +236,12 @@ class Gen(object):
     others = view.user_tables()
     if others and r.random() < 0.3:
       typ = r.choice(['Ref:', 'RefList:']) + r.choice(others)
-    return ['AddColumn', tid, cid, {'type': typ, 'isFormula': False, 'formula': ''}]
+    formula = ''
+    if r.random() < 0.2:
+      # a data column with a default formula (evaluated for new records only)
+      base = typ.split(':')[0]
+      formula = {'Ref': '1', 'RefList': '[1]', 'Int': '7', 'Numeric': '1.5', 'Text': '"dflt"'}.get(base, '')
+    return ['AddColumn', tid, cid, {'type': typ, 'isFormula': False, 'formula': formula}]
 
   def ua_remove_column(self, view, tid):
     # clean-history rule: never remove something a formula still mentions (stale/NameError zone,
@@ -412,7 +419,8 @@ class Gen(object):
     r = self.rng
     others = view.user_tables()
     typ = r.choice(['Ref:', 'RefList:']) + r.choice(others)
-    return ['AddColumn', tid, self.fresh("ref"), {'type': typ, 'isFormula': False, 'formula': ''}]
+    formula = ('1' if typ.startswith('Ref:') else '[1]') if r.random() < 0.3 else ''
+    return ['AddColumn', tid, self.fresh("ref"), {'type': typ, 'isFormula': False, 'formula': formula}]
 
   def ua_switch_ref_type(self, view, tid):
     r = self.rng
@@ -452,8 +460,11 @@ class Gen(object):
                ['RenameTable', 'NoSuchTable', 'Y'],
                ['NoSuchAction'],
                ['ModifyColumn', tabs[0] if tabs else 'X', 'nope', {'type': 'Int'}]]
+    choices.append(['AddTable', self.fresh("Bad"), [{'id': 'A', 'type': 'Integer', 'isFormula': False, 'formula': ''}]])
+    choices.append(['AddTable', self.fresh("Bad"), [{'id': 'A', 'type': 'Any', 'isFormula': True, 'formula': '1 +\f 2\n  x'}]])
     if tabs:
       t = r.choice(tabs)
+      choices.append(['AddColumn', t, self.fresh("bad"), {'type': 'Integer', 'isFormula': False, 'formula': ''}])
       cols = view.all_cols(t)
       if cols:
         choices.append(['RenameColumn', t, cols[0], cols[-1] if len(cols) > 1 else 'id'])
